@@ -421,7 +421,8 @@ Section PostAll.
       + cbn [fst]. split; cbn [slots kv seqs]; [exact Hmp|].
         intros idx q Hq Hnil. pose proof (mo_live _ _ _ _ _ Hmp idx q Hq) as Hl.
         apply (lo_nonempty _ _ _ _ _ Hl Hnil). eapply live_pending_nil; eauto.
-      + rewrite <- Eb in Hmp |- *. set (kv' := kv_forward (kv_evict cfg (p_kv p) (p_batch p)) (p_batch p)).
+      + rewrite <- Eb in Hmp |- *. destruct (kv_full cfg (kv_evict cfg (p_kv p) (p_batch p)) (p_batch p)); [split; auto|].
+        set (kv' := kv_forward (kv_evict cfg (p_kv p) (p_batch p)) (p_batch p)).
         destruct (post_all F cfg kv' (p_batch p) (p_slots p) (p_seqs p)) as [[[sl' qs'] ev]|] eqn:EP; [|split; auto].
         cbn [fst]. destruct (post_all_spec _ _ _ _ _ _ _ _ EP) as (L1 & L2 & Hfr & Hown & Hnone).
         assert (Hpost : forall k q, get_seq (p_seqs p) k = Some q ->
